@@ -42,6 +42,11 @@ type Case struct {
 	Orders   [][]int `json:"orders"`
 	Paths    []mon.Q `json:"paths"`
 	ViaMux   bool    `json:"via_mux,omitempty"`
+	// MuxMethods: the mux registers every pattern under GET and the even-numbered ones under POST as
+	// well; requests use GET, POST and PUT in turn (PUT has no routes: nothing may be found)
+	MuxMethods bool `json:"mux_methods,omitempty"`
+	// SizeHint, when set, is assigned to Router.SizeHint before Build (the exported tuning knob)
+	SizeHint *int `json:"size_hint,omitempty"`
 }
 
 // ---- reference model ----
@@ -211,13 +216,32 @@ func runCase(m *mon.M, c *Case) {
 		byText[p] = &refs[i]
 	}
 	var routers []*denco.Router
+	var postRouters []*denco.Router
 	var muxes []http.Handler
+	// the records are created once; every build after the first one receives THE SAME slice, reordered
+	// in place (the way a caller re-sorts its table): whatever a build does to its input reaches the next
+	recs := make([]denco.Record, len(pats))
+	idx := make([]int, len(pats)) // idx[j] = pattern number of recs[j]
+	for i := range pats {
+		recs[i], idx[i] = denco.NewRecord(pats[i], pats[i]), i
+	}
 	for _, ord := range c.Orders {
-		recs := make([]denco.Record, 0, len(pats))
-		for _, i := range ord {
-			recs = append(recs, denco.NewRecord(pats[i], pats[i]))
+		pos := make(map[int]int, len(idx))
+		for j, i := range idx {
+			pos[i] = j
+		}
+		for j, i := range ord { // bring pattern i to position j by swapping
+			k := pos[i]
+			if k != j {
+				recs[j], recs[k] = recs[k], recs[j]
+				pos[idx[j]], pos[i] = k, j
+				idx[j], idx[k] = idx[k], idx[j]
+			}
 		}
 		rt := denco.New()
+		if c.SizeHint != nil {
+			rt.SizeHint = *c.SizeHint
+		}
 		var berr error
 		pv, st := mon.Catch(func() { berr = rt.Build(recs) })
 		if pv != nil {
@@ -232,15 +256,26 @@ func runCase(m *mon.M, c *Case) {
 		if c.ViaMux {
 			mux := denco.NewMux()
 			var hs []denco.Handler
+			var postRecs []denco.Record
 			for _, i := range ord {
 				pat := pats[i]
-				hs = append(hs, mux.GET(pat, func(w http.ResponseWriter, _ *http.Request, ps denco.Params) {
+				hf := func(w http.ResponseWriter, _ *http.Request, ps denco.Params) {
 					w.Header().Set("X-Pattern", url.QueryEscape(pat))
 					for _, p := range ps {
 						w.Header().Add("X-Param", url.QueryEscape(p.Name)+"="+url.QueryEscape(p.Value))
 					}
-				}))
+				}
+				hs = append(hs, mux.GET(pat, hf))
+				if c.MuxMethods && i%2 == 0 {
+					hs = append(hs, mux.POST(pat, hf))
+					postRecs = append(postRecs, denco.NewRecord(pat, pat))
+				}
 			}
+			prt := denco.New()
+			if len(postRecs) > 0 {
+				_ = prt.Build(postRecs)
+			}
+			postRouters = append(postRouters, prt)
 			h, err := mux.Build(hs)
 			if err == nil {
 				muxes = append(muxes, h)
@@ -248,7 +283,7 @@ func runCase(m *mon.M, c *Case) {
 		}
 	}
 	setHash := fmt.Sprintf("%x", mon.Hash64(strings.Join(sortedCopy(pats), "\x00")))
-	for _, qp := range c.Paths {
+	for pi, qp := range c.Paths {
 		path := string(qp)
 		m.Eval(1)
 		// reference
@@ -278,7 +313,7 @@ func runCase(m *mon.M, c *Case) {
 		var first answer
 		for k, rt := range routers {
 			a := lookup(rt, path)
-			one := &Case{Patterns: c.Patterns, Orders: [][]int{c.Orders[k]}, Paths: []mon.Q{qp}}
+			one := &Case{Patterns: c.Patterns, Orders: c.Orders[:k+1], Paths: []mon.Q{qp}, SizeHint: c.SizeHint}
 			if a.panic != "" {
 				m.Violate("lookup-panic/"+feat, fmt.Sprintf("Lookup(%q) panicked: %s", path, a.panic), one)
 				continue
@@ -286,7 +321,7 @@ func runCase(m *mon.M, c *Case) {
 			if k == 0 {
 				first = a
 			} else if a.String() != first.String() {
-				two := &Case{Patterns: c.Patterns, Orders: [][]int{c.Orders[0], c.Orders[k]}, Paths: []mon.Q{qp}}
+				two := &Case{Patterns: c.Patterns, Orders: c.Orders[:k+1], Paths: []mon.Q{qp}, SizeHint: c.SizeHint}
 				m.Violate("order-dependent/"+feat, fmt.Sprintf("Lookup(%q): order#0 -> %s ; order#%d -> %s", path, first, k, a), two)
 			}
 			if a.found {
@@ -336,10 +371,21 @@ func runCase(m *mon.M, c *Case) {
 				break
 			}
 			want := lookup(routers[k], path)
+			method := http.MethodGet
+			if c.MuxMethods {
+				switch pi % 3 {
+				case 1:
+					method = http.MethodPost
+					want = lookup(postRouters[k], path)
+				case 2:
+					method = http.MethodPut
+					want = answer{}
+				}
+			}
 			rec := httptest.NewRecorder()
-			req := &http.Request{Method: http.MethodGet, URL: &url.URL{Path: path}, Header: http.Header{}}
+			req := &http.Request{Method: method, URL: &url.URL{Path: path}, Header: http.Header{}}
 			pv, _ := mon.Catch(func() { h.ServeHTTP(rec, req) })
-			one := &Case{Patterns: c.Patterns, Orders: [][]int{c.Orders[k]}, Paths: []mon.Q{qp}, ViaMux: true}
+			one := &Case{Patterns: c.Patterns, Orders: c.Orders[:k+1], Paths: c.Paths[:pi+1], ViaMux: true, MuxMethods: c.MuxMethods, SizeHint: c.SizeHint}
 			if pv != nil {
 				if want.panic == "" {
 					m.Violate("mux-panic/"+feat, fmt.Sprintf("mux.ServeHTTP(%q) panicked: %v", path, pv), one)
@@ -529,11 +575,17 @@ func instantiatePattern(r *rand.Rand, p string) string {
 		case 'p':
 			if r.Intn(12) == 0 {
 				sb.WriteString(gen.Pick(r, gen.Words)) // a value that collides with a literal sibling
+			} else if r.Intn(50) == 0 {
+				sb.WriteString(gen.Value(r, 300, false)) // a long capture
 			} else {
 				sb.WriteString(gen.Value(r, 5, false))
 			}
 		case 'w':
-			sb.WriteString(gen.Value(r, 8, true))
+			if r.Intn(50) == 0 {
+				sb.WriteString(gen.Value(r, 300, true))
+			} else {
+				sb.WriteString(gen.Value(r, 8, true))
+			}
 		}
 	}
 	return sb.String()
@@ -590,8 +642,8 @@ func genPaths(r *rand.Rand, pats []string, n int) []string {
 		}
 	}
 	for i := range out {
-		if len(out[i]) > 64 {
-			out[i] = out[i][:64]
+		if len(out[i]) > 1500 {
+			out[i] = out[i][:1500]
 		}
 	}
 	return out
@@ -606,6 +658,11 @@ func genCase(r *rand.Rand, maxPat, norders, npaths int) *Case {
 	}
 	c.Paths = mon.QS(genPaths(r, pats, npaths))
 	c.ViaMux = r.Intn(10) == 0
+	c.MuxMethods = c.ViaMux && r.Intn(2) == 0
+	if r.Intn(4) == 0 {
+		h := []int{0, 1, 2, 64}[r.Intn(4)]
+		c.SizeHint = &h
+	}
 	return c
 }
 
